@@ -4,6 +4,7 @@ import (
 	"bytes"
 	"context"
 	"fmt"
+	"io"
 	"strings"
 
 	"go.uber.org/thriftrw/protocol/binary"
@@ -105,13 +106,23 @@ func (s *structBody) Decode(r stream.Reader) error {
 	return err
 }
 
+var seekAlt int
+
 func implReadRequest(et uint8, b []byte, sizes []int, seekable bool) (res string, rw stream.ResponseWriter) {
 	p := safely(func() {
 		body := &structBody{}
 		var w stream.ResponseWriter
 		var err error
 		if seekable {
-			w, err = binary.Default.ReadRequest(context.Background(), wire.EnvelopeType(int8(et)), bytes.NewReader(b), body)
+			// every other seekable source has been read from before: the request does not start at
+			// offset 0 of the source (a connection buffer, a file holding several messages)
+			src := bytes.NewReader(b)
+			if seekAlt++; seekAlt%2 == 0 {
+				pre := []byte{0x0b, 0x00, 0x0c}[:1+seekAlt/2%3]
+				src = bytes.NewReader(append(append([]byte{}, pre...), b...))
+				io.ReadFull(src, make([]byte, len(pre)))
+			}
+			w, err = binary.Default.ReadRequest(context.Background(), wire.EnvelopeType(int8(et)), src, body)
 		} else {
 			w, err = binary.Default.ReadRequest(context.Background(), wire.EnvelopeType(int8(et)), maybePipe(newChunkReader(b, sizes)), body)
 		}
@@ -324,5 +335,5 @@ func runC12(c *checker, r *rng.R) {
 	c.flush()
 	runC12Server(c, r)
 	c.flush()
-	c.rep.Rule = "envelopes: names 1..2^16 bytes (non-UTF8, ':'-multiplexed), types 0..127, seqids at int32 boundaries, random struct bodies × 3 framings × {DecodeRequest, ReadRequest non-seekable (every other one with a Seek method that always fails, like a pipe) under random segmentation incl. 1-byte/zero-length first reads, ReadRequest seekable} × right/wrong expected type, replies through both responder APIs; plus mutated envelopes and random bytes for classification agreement; plus internal/envelope.Server over internal/multiplex (through the verif hook): enveloped Calls in both framings to known / unknown services and methods and a failing handler — the answer must echo name and sequence id, be a Reply with the handler's value or an Exception; the same through envelope.Client + multiplex.Client; responses retained across later requests and a server shared by 8 goroutines (a response must stay what it was); every case non-trivial; distinct by canonical text"
+	c.rep.Rule = "envelopes: names 1..2^16 bytes (non-UTF8, ':'-multiplexed), types 0..127, seqids at int32 boundaries, random struct bodies × 3 framings × {DecodeRequest, ReadRequest non-seekable (every other one with a Seek method that always fails, like a pipe) under random segmentation incl. 1-byte/zero-length first reads, ReadRequest seekable, every other source already read from (the request starts at offset 1–3)} × right/wrong expected type, replies through both responder APIs; plus mutated envelopes and random bytes for classification agreement; plus internal/envelope.Server over internal/multiplex (through the verif hook): enveloped Calls in both framings to known / unknown services and methods and a failing handler — the answer must echo name and sequence id, be a Reply with the handler's value or an Exception; the same through envelope.Client + multiplex.Client; responses retained across later requests and a server shared by 8 goroutines (a response must stay what it was); every case non-trivial; distinct by canonical text"
 }
